@@ -125,6 +125,59 @@ func RegionHasCompressed(reg *uefigen.Region) bool {
 	return r
 }
 
+// ---------- the scope of the end-to-end theorem C02_valid_after_edits_flat ----------
+
+func secFlat(s *uefigen.Sec) bool {
+	if s.Vol != nil || s.Type == 0x17 {
+		return false // a visible nested volume
+	}
+	if s.Type == 0x02 && s.GDAttrs&1 != 0 {
+		for k := 1; k <= 3; k++ {
+			if s.GUID == uefigen.CodecGUID(k) {
+				return false // fiano opens and re-compresses it
+			}
+		}
+	}
+	return true
+}
+
+// FileFlat: every section of the file is a leaf for fiano (no volume image, no opened compressed section).
+func FileFlat(f *uefigen.File) bool {
+	for _, s := range f.Secs {
+		if comp[s] != nil || !secFlat(s) {
+			return false
+		}
+	}
+	return true
+}
+
+// SpecFlat: the generator's claim that the parsed tree of the region is "flat" in the sense of
+// coq/Model/ValidInv.v; the model runner decides it (flat_check) on the bytes. Callers add
+// "the image is valid for the reader" (ValidImage) where the generator may break checksums.
+func SpecFlat(reg *uefigen.Region) bool {
+	for _, e := range reg.Elems {
+		if e.Vol == nil {
+			continue
+		}
+		for _, f := range e.Vol.Files {
+			if !FileFlat(f) {
+				return false
+			}
+		}
+	}
+	return true
+}
+
+// OpsFlat: the command line parses and every inserted file is flat.
+func OpsFlat(ops []EOp) bool {
+	for _, o := range ops {
+		if o.Bad || (o.Spec != nil && !FileFlat(o.Spec)) {
+			return false
+		}
+	}
+	return true
+}
+
 // ---------- abstract rendering of a spec (must agree with reader.go's AbsVolume) ----------
 
 func isFFS(v *uefigen.Vol) bool { return v.FSGUID == uefigen.FFS2 || v.FSGUID == uefigen.FFS3 }
@@ -276,7 +329,7 @@ func ApplySpec(reg *uefigen.Region, o EOp, touched map[int]bool) bool {
 		if it == "dxe" {
 			ms = findSpec(reg, nil, false, 5)
 		} else {
-			ms = findSpec(reg, matcherOf(o.Target, false), true, -1)
+			ms = findSpec(reg, matcherOf(o.Target, o.Re), true, -1)
 		}
 		if len(ms) != 1 {
 			return false
@@ -507,7 +560,7 @@ func genCompressed(r *Rng) *uefigen.Sec {
 
 func GenVolSpec(r *Rng, depth, maxDepth int, aligned bool) *uefigen.Vol {
 	v := &uefigen.Vol{FSGUID: uefigen.FFS2, Attrs: 0x800 | uint32(r.Pick(0, 0x4FEFF, 0x3)), Revision: 2}
-	if r.Chance(1, 5) {
+	if r.Chance(1, 3) {
 		v.FSGUID = uefigen.FFS3
 	}
 	v.BlockSize = uint32(r.Pick(8, 64, 64, 256))
@@ -522,6 +575,14 @@ func GenVolSpec(r *Rng, depth, maxDepth int, aligned bool) *uefigen.Vol {
 	n := r.Pick(0, 1, 1, 2, 2, 3, 4)
 	for i := 0; i < n; i++ {
 		v.Files = append(v.Files, GenFileSpec(r, depth, maxDepth, aligned))
+	}
+	if v.FSGUID == uefigen.FFS3 {
+		// opaque files in the FFSv3 large form (size field 0xFFFFFF + 64-bit size) although small
+		for _, f := range v.Files {
+			if f.Secs == nil && r.Chance(1, 2) {
+				f.LargeForm = true
+			}
+		}
 	}
 	v.FreeSpace = r.Pick(0, 8, 24, 64, 100, 300, 300, 600)
 	if depth == 0 && r.Chance(1, 12) { // a file system fiano does not parse
@@ -653,8 +714,11 @@ func genTarget(r *Rng, reg *uefigen.Region, forInsert, unique bool) string {
 // genPattern builds a regular expression with metacharacters over the texts of the image: an
 // alternation of two texts, a prefix with ".*", or a group with an alternation in front of a
 // common tail. None of them matches the empty text (every non-UI section has an empty name).
-func genPattern(r *Rng, reg *uefigen.Region) (string, []string) {
-	files, _ := present(reg)
+func genPattern(r *Rng, reg *uefigen.Region, withVols bool) (string, []string) {
+	files, vols := present(reg)
+	if withVols {
+		files = append(files, vols...)
+	}
 	pick := func() string {
 		if len(files) > 0 && r.Chance(3, 4) {
 			return files[r.Intn(len(files))]
@@ -702,6 +766,10 @@ func GenOp(r *Rng, reg *uefigen.Region, maxDepth int) EOp {
 		o := EOp{Kind: "ins", It: insKinds[r.Intn(len(insKinds))], Target: genTarget(r, reg, true, true), Spec: f, Data: EmitFile(f)}
 		if o.It == "dxe" {
 			o.Target = ""
+		} else if Patterns && r.Chance(1, 5) {
+			// the insert family selects with FindFileFVPredicate: file GUIDs, UI names, volume names
+			o.Target, o.Match = genPattern(r, reg, true)
+			o.Re = o.Match != nil || strings.ContainsAny(o.Target, "|.(")
 		}
 		if r.Chance(1, 25) && len(o.Data) > 30 {
 			// a file that NewFile rejects at ParseCLI time: cut inside its body
@@ -711,7 +779,7 @@ func GenOp(r *Rng, reg *uefigen.Region, maxDepth int) EOp {
 		return o
 	case k <= 6:
 		if Patterns && r.Chance(1, 4) {
-			pat, set := genPattern(r, reg)
+			pat, set := genPattern(r, reg, false)
 			return EOp{Kind: "rm", Pad: r.Chance(2, 5), Target: pat, Re: set != nil || strings.ContainsAny(pat, "|.("), Match: set}
 		}
 		return EOp{Kind: "rm", Pad: r.Chance(2, 5), Target: genTarget(r, reg, false, false)}
@@ -721,7 +789,7 @@ func GenOp(r *Rng, reg *uefigen.Region, maxDepth int) EOp {
 			pe = r.Bytes(r.Pick(0, 1, 5))
 		}
 		if Patterns && r.Chance(1, 5) {
-			pat, set := genPattern(r, reg)
+			pat, set := genPattern(r, reg, false)
 			return EOp{Kind: "pe", Target: pat, Re: set != nil || strings.ContainsAny(pat, "|.("), Match: set, Data: pe}
 		}
 		return EOp{Kind: "pe", Target: genTarget(r, reg, false, true), Data: pe}
@@ -743,12 +811,14 @@ type ECase struct {
 	Touched string
 	Reg     *uefigen.Region // the spec after the edits (generator side only)
 	Comp    bool            // the image holds compressed sections: the model needs codec tables
+	Flat    bool            // image and operations are in the scope of C02_valid_after_edits_flat
 }
 
 func GenCase(r *Rng, maxDepth int, nops int) ECase {
 	reg := GenRegionSpec(r, maxDepth, true)
 	img, _ := uefigen.EmitRegion(reg)
 	hasComp := RegionHasCompressed(reg)
+	flat := SpecFlat(reg) // of the image as generated: the edits below change the spec
 	var ops []EOp
 	touched := map[int]bool{}
 	errAt := -1
@@ -760,7 +830,7 @@ func GenCase(r *Rng, maxDepth int, nops int) ECase {
 			errAt = i
 		}
 	}
-	c := ECase{Img: img, Ops: ops, Reg: reg, Comp: hasComp}
+	c := ECase{Img: img, Ops: ops, Reg: reg, Comp: hasComp, Flat: flat && OpsFlat(ops)}
 	if AnyBad(ops) {
 		c.Expect, c.Touched = "C", "-"
 	} else if errAt >= 0 {
@@ -795,7 +865,11 @@ func Exhaustive(maxLen int, visit func(c ECase)) {
 			v1.Files = []*uefigen.File{c()}
 		case 1:
 			v0.Files = []*uefigen.File{a()}
-			v1.Files = []*uefigen.File{b(), a()}
+			// an FFSv3 volume whose PEIM is written in the large form (size field 0xFFFFFF)
+			v1.FSGUID = uefigen.FFS3
+			lb := b()
+			lb.LargeForm = true
+			v1.Files = []*uefigen.File{lb, a()}
 		default:
 			v0.Files = []*uefigen.File{c(), b(), a()}
 			v1.Files = nil
@@ -828,6 +902,7 @@ func Exhaustive(maxLen int, visit func(c ECase)) {
 		if len(seq) > 0 {
 			reg := mk(which)
 			img, _ := uefigen.EmitRegion(reg)
+			flat := SpecFlat(reg)
 			al := alphabet()
 			var ops []EOp
 			touched := map[int]bool{}
@@ -842,7 +917,7 @@ func Exhaustive(maxLen int, visit func(c ECase)) {
 					errAt = k
 				}
 			}
-			c := ECase{Img: img, Ops: ops}
+			c := ECase{Img: img, Ops: ops, Flat: flat && OpsFlat(ops)}
 			if errAt >= 0 {
 				c.Expect, c.Touched = fmt.Sprintf("E%d", errAt), "-"
 			} else {
@@ -878,6 +953,7 @@ func GenCaseGrammar(r *Rng, nops int) ECase {
 	o := uefigen.Opts{MaxDepth: r.Pick(0, 0, 1), Strings: true, Alignments: r.Chance(2, 3), BigBodies: false}
 	reg := uefigen.GenRegion(r, o)
 	img, _ := uefigen.EmitRegion(reg)
+	flat := SpecFlat(reg)
 	var ops []EOp
 	touched := map[int]bool{}
 	for i := 0; i < nops; i++ {
@@ -889,7 +965,8 @@ func GenCaseGrammar(r *Rng, nops int) ECase {
 		ops = append(ops, op)
 		ApplySpec(reg, op, touched)
 	}
-	return ECase{Img: img, Ops: ops}
+	// the general grammar allows opaque files with arbitrary checksums: such an image is not valid
+	return ECase{Img: img, Ops: ops, Flat: flat && OpsFlat(ops) && ValidImage(img) == ""}
 }
 
 // FindExpect: the files a pattern selects (GUIDs, as "F:<guid>;" entries sorted), by full match on
@@ -914,7 +991,7 @@ func sortStrings(a []string) {
 }
 
 // GenPatternFor exposes genPattern to the executors.
-func GenPatternFor(r *Rng, reg *uefigen.Region) (string, []string) { return genPattern(r, reg) }
+func GenPatternFor(r *Rng, reg *uefigen.Region) (string, []string) { return genPattern(r, reg, false) }
 
 // FullMatches: the texts of the spec (file GUID texts, UI names) that the pattern matches in full.
 func FullMatches(reg *uefigen.Region, pat string) []string {
